@@ -52,6 +52,11 @@ def check_full(case, res, supress):
         res.bad('harness:segments', '%d segments for %d lines' % (len(inp), len(lines)))
         return None
     prefixes = set()
+    from .. import model
+    W = model.MWorld()
+    unseen = {}          # index of a message spec -> its target was never seen created (by the reference model)
+    for k, sp in enumerate(case['specs']):
+        unseen[k] = bool(getattr(W.step(sp)['target'], 'ghost', False))
     for seg, (kind, ltext) in zip(inp, lines):
         items = notices_stripped(seg.out_lines())
         res.evals += 1
@@ -62,9 +67,10 @@ def check_full(case, res, supress):
                         '%r produced %d items before the next read: %r' % (ltext, len(items), items[:3]))
                 continue
             mm = session.MSG_LINE.match(items[0])
-            spec = case['specs'][seg_index(lines, seg, inp)]
-            # (an object the stream never showed being created reads `unresolved type@id?`)
-            if not mm or not re.search(r'%s@%d(?:[a-z]+|\?)\.%s\(' % (re.escape(spec['iface']), spec['id'], re.escape(spec['name'])), mm.group(3)):
+            k = seg_index(lines, seg, inp)
+            spec = case['specs'][k]
+            # (an object the stream never showed being created - and only such an object - reads `unresolved type@id?`)
+            if not mm or not re.search(r'%s@%d%s\.%s\(' % (re.escape(spec['iface']), spec['id'], r'\?' if unseen[k] else '[a-z]+', re.escape(spec['name'])), mm.group(3)):
                 res.bad('message-line-not-decoded' + tag, '%r shown as %r' % (ltext, items[0]))
         else:
             if supress:
